@@ -296,6 +296,9 @@ def materialise(world, scratch):
             elif n.get("rawbytes") is not None:
                 with open(p, "wb") as f:
                     f.write(bytes(n["rawbytes"]))
+            elif n.get("bigsize"):
+                with open(p, "wb") as f:
+                    f.truncate(int(n["bigsize"]))
             elif n.get("content") is not None:
                 with open(p, "wb") as f:
                     f.write(content_bytes(n["content"]))
@@ -391,7 +394,7 @@ def snapshot(w, world, digests=False):
                "size": str(st.st_size), "blocks": str(st.st_blocks), "mode": st.st_mode, "perm": st.st_mode & 0o7777,
                "uid": str(st.st_uid), "gid": str(st.st_gid), "mtime": int(st.st_mtime),
                "sizen": st.st_size if st.st_size < 2 ** 31 else -1, "uidn": st.st_uid, "gidn": st.st_gid,
-               "nlinkn": st.st_nlink, "blocksn": st.st_blocks if st.st_blocks < 2 ** 31 else -1}
+               "sizec": list(str(st.st_size)), "nlinkn": st.st_nlink, "blocksn": st.st_blocks if st.st_blocks < 2 ** 31 else -1}
         try:
             rec["user"] = pwd.getpwuid(st.st_uid).pw_name
         except KeyError:
